@@ -536,6 +536,12 @@ Type help or ? to list commands.
         except EvalError as e:
             print('Eval error:', e)
             return
+        except OverflowError:
+            print('Eval error: Overflow')
+            return
+        except ZeroDivisionError:
+            print('Eval error: Division by zero')
+            return
 
         print(value)
 
